@@ -331,6 +331,15 @@ def step (d : DState) (line : String) : IO DState := do
     out s!"wst {showPc sys'.worker.pc} q={sys'.worker.queue.length}"
     return noteEvs { d with sys := sys' } evs
   | ["drain"] => return { d with sys := d.sys.drain }
+  | ["statdrain", p] =>
+    -- a drain racing with stat() observers on other threads: the model is the drain; the
+    -- observers must never see a torn report (implementation side)
+    match p.toNat? with
+    | none => out "bad-op"; return d
+    | some _ =>
+      if d.sys.store.isNone then out "statdrain none"; return d
+      out "statdrain ok"
+      return { d with sys := d.sys.drain }
   | ["droppanic"] =>
     -- dropped while a panic unwinds through the owner: same obligations as a plain drop
     if d.sys.store.isNone then out "dropped none"; return d
